@@ -378,6 +378,38 @@ def selftest_instrumenter():
         shutil.rmtree(scr, ignore_errors=True)
 
 
+def selftest_constructs():
+    """Differential self-test of instrumenter + runtime on dsim/constructs (every rewritten construct)."""
+    scr = scratch_dir()
+    try:
+        build(scr)
+        out = os.path.join(scr, "plain.json")
+        env = dict(ENV, DSIM_MODE="plain-constructs", DSIM_OUT=out, GOMAXPROCS="4")
+        r = subprocess.run([os.path.join(scr, "sim.test"), "-test.run", "^TestSim$", "-test.timeout", "120s"], env=env, cwd=scr, stdout=subprocess.PIPE, stderr=subprocess.STDOUT, text=True)
+        if r.returncode != 0 or not os.path.exists(out):
+            print(r.stdout[-3000:]); return 2
+        bad = json.load(open(out))["failures"] or []
+        for b in bad:
+            print("constructs (plain): " + b)
+        n = int(os.environ.get("DSIM_CONSTRUCT_RUNS", "20000"))
+        res = run_workers(scr, "selftest-constructs", "quick", int(os.environ.get("VERIF_SEED", "1") or "1"), n, 600)
+        runs = sum(r["runs"] for r, _ in res)
+        fails = [f for r, _ in res for f in (r.get("failures") or [])]
+        inconcl = [x for r, _ in res for x in (r.get("inconclusive") or [])]
+        probes = {}
+        for r, _ in res:
+            merge_counts(probes, r.get("probes") or {})
+        for f in fails[:10]:
+            print("constructs: rule %s: %s" % (f["rule"], f["msg"][:300]))
+        for x in inconcl[:5]:
+            print("constructs: inconclusive: " + x)
+        print("constructs: %d runs under the scheduler, cases %s" % (runs, {k[5:]: v for k, v in sorted(probes.items()) if k.startswith("case-")}))
+        print("constructs: %s" % ("ok" if not bad and not fails and not inconcl else "FAILED"))
+        return 0 if not bad and not fails and not inconcl else 2
+    finally:
+        shutil.rmtree(scr, ignore_errors=True)
+
+
 def main():
     a = sys.argv[1:]
     if len(a) >= 3 and a[0] == "check":
@@ -388,6 +420,8 @@ def main():
         sys.exit(selftest_determinism(a[2:]))
     if len(a) == 2 and a[0] == "selftest" and a[1] == "instrumenter":
         sys.exit(selftest_instrumenter())
+    if len(a) == 2 and a[0] == "selftest" and a[1] == "constructs":
+        sys.exit(selftest_constructs())
     print(__doc__)
     sys.exit(2)
 
